@@ -61,7 +61,10 @@ func c08Body(r *Run) {
 	}
 	rig := newRouterRig(r, 30*time.Second)
 	var hs []*c8Handler
-	owner := map[*message.Message]*c8Handler{} // produced message -> handler that returned it
+	// produced message (by UUID: every output UUID occurs once in a run; a router may hand its publisher the returned
+	// objects or equal copies) -> handler that returned it
+	owner := map[string]*c8Handler{}
+	ownerPtr := map[*message.Message]*c8Handler{} // the returned objects themselves (UUIDs of passed-on consumed messages may repeat)
 	var parked []c8Parked
 	for i := 0; i < nH; i++ {
 		h := &c8Handler{name: fmt.Sprintf("handler-%d", i), outN: map[string]int{}, passSelf: map[string]bool{}, parkConsumed: map[string]bool{}, reuseParked: map[string]bool{},
@@ -91,7 +94,8 @@ func c08Body(r *Run) {
 		pubName := "scen.ScriptedPublisher"
 		pubTopic := h.pubTopic
 		if h.noPub {
-			pubName = "message.disabledPublisher"
+			// what stands in for the missing publisher is the router's business: its type name is not compared
+			pubName = message.PublisherNameFromCtx(ctx)
 			pubTopic = ""
 		}
 		got := [5]string{message.HandlerNameFromCtx(ctx), message.SubscribeTopicFromCtx(ctx), message.PublishTopicFromCtx(ctx), message.SubscriberNameFromCtx(ctx), message.PublisherNameFromCtx(ctx)}
@@ -148,7 +152,8 @@ func c08Body(r *Run) {
 			var sn []*message.Message
 			for _, o := range outs {
 				sn = append(sn, o.Copy())
-				owner[o] = h
+				owner[o.UUID] = h
+				ownerPtr[o] = h
 			}
 			h.snaps[d] = sn
 			return outs, nil
@@ -161,7 +166,8 @@ func c08Body(r *Run) {
 					return func(m *message.Message) ([]*message.Message, error) {
 						o, err := next(m)
 						x := message.NewMessage(m.UUID+">mw", []byte("mw"))
-						owner[x] = h
+						owner[x.UUID] = h
+						ownerPtr[x] = h
 						return append(o, x), err
 					}
 				})
@@ -175,7 +181,10 @@ func c08Body(r *Run) {
 		p := p
 		p.Hook = func(c *PubCall) {
 			for _, m := range c.Msgs {
-				h := owner[m]
+				h := ownerPtr[m]
+				if h == nil {
+					h = owner[m.UUID]
+				}
 				if h == nil {
 					r.Fail("C08.R2", "a publisher received a message no handler returned", "%s got %s", p.Name, m.UUID)
 					continue
@@ -238,36 +247,45 @@ func c08Body(r *Run) {
 				if len(outs) == 0 {
 					continue
 				}
-				var call *PubCall
-				for _, c := range h.pub.Calls {
-					if len(c.Msgs) > 0 && c.Msgs[0] == outs[0] {
-						if call != nil {
-							r.Fail("C08.R2", "a handler's outputs were published more than once", "%s %s", h.name, d.Msg.UUID)
+				// the outputs may be handed over in one call or in several, but completely, once, in order and unmodified
+				type pos struct {
+					call, idx int
+				}
+				last := pos{-1, -1}
+				for i, o := range outs {
+					var at []pos
+					for ci, c := range h.pub.Calls {
+						for mi, m := range c.Msgs {
+							if m == o {
+								at = append(at, pos{ci, mi})
+							}
 						}
-						call = c
 					}
-				}
-				if call == nil {
-					r.Fail("C08.R2", "a handler's outputs were never handed to its publisher", "%s %s returned %d messages", h.name, d.Msg.UUID, len(outs))
-					continue
-				}
-				if len(call.Msgs) != len(outs) {
-					r.Fail("C08.R2", "a publish call does not carry exactly the handler's outputs", "%s %s: call has %d messages, handler returned %d", h.name, d.Msg.UUID, len(call.Msgs), len(outs))
-					continue
-				}
-				for i := range outs {
-					if call.Msgs[i] != outs[i] {
+					if len(at) == 0 {
+						// not the object itself: an equal copy then (told apart by UUID, and by topic where handlers share a publisher)
+						for ci, c := range h.pub.Calls {
+							for mi, m := range c.Msgs {
+								if m.UUID == o.UUID && ownerPtr[m] == nil && c.Topic == h.pubTopic {
+									at = append(at, pos{ci, mi})
+								}
+							}
+						}
+					}
+					if len(at) == 0 {
+						r.Fail("C08.R2", "a handler's outputs were never handed to its publisher", "%s %s returned %d messages, output %d (%s) missing", h.name, d.Msg.UUID, len(outs), i, o.UUID)
+						break
+					}
+					if len(at) > 1 && h.pub.Calls[at[0].call].Msgs[at[0].idx] == o {
+						r.Fail("C08.R2", "a handler's outputs were published more than once", "%s %s output %d (%s)", h.name, d.Msg.UUID, i, o.UUID)
+						break
+					}
+					if at[0].call < last.call || (at[0].call == last.call && at[0].idx <= last.idx) {
 						r.Fail("C08.R2", "outputs reordered or replaced", "%s %s position %d", h.name, d.Msg.UUID, i)
-					} else if !call.Snap[i].Equals(h.snaps[d][i]) {
-						r.Fail("C08.R2", "an output was modified between the handler and the publisher", "%s %s position %d: %v vs %v", h.name, d.Msg.UUID, i, call.Snap[i], h.snaps[d][i])
 					}
-				}
-			}
-		}
-		for _, p := range pubs {
-			for _, c := range p.Calls {
-				if len(c.Msgs) == 0 {
-					r.Fail("C08.R2", "publish call without messages", "%s", p.Name)
+					last = at[0]
+					if sn := h.pub.Calls[at[0].call].Snap[at[0].idx]; !sn.Equals(h.snaps[d][i]) {
+						r.Fail("C08.R2", "an output was modified between the handler and the publisher", "%s %s position %d: %v vs %v", h.name, d.Msg.UUID, i, sn, h.snaps[d][i])
+					}
 				}
 			}
 		}
